@@ -493,9 +493,18 @@ var vfNasty = []string{
 	" line sep", "héllo wörld ünïcode", "日本語テキスト", "emoji 😀 \U0001F600", "100% Sunny %s %d %v %!", "%", "%%", "%[1]n",
 	"bad\xffutf8\xfe\xfd", "\xc3\x28", "\xe2\x82", "\xed\xa0\x80 surrogate", "a\xf0\x28\x8c\x28z", "{\"json\":\"inside\"}", "\\u0041", "'; DROP TABLE --",
 	"logs-%{+yyyy.MM.dd}", "trailing\\", "\"", "\n", "a\nb", "null", "true", "0", "  spaces  ",
+	// the text of every escape sequence a JSON encoder may itself produce, as literal characters (backslash, letter, digits)
+	`\u0026`, `\u003c`, `\u003e`, `a\u0026b\u003cc\u003ed`, `\u2028\u2029`, `\ufffd`, `\n\t\r\b\f`, `\"`, `\\`, `\/`, `\u0000`, `&\u0026&`, `<\u003c>`, "&", "<", ">", "&<>",
 }
 
+var vfNastyNext int
+
 func vfStr(rnd *rand.Rand) string {
+	// every listed string is used at least once per process before the random choice starts
+	if vfNastyNext < len(vfNasty) {
+		vfNastyNext++
+		return vfNasty[vfNastyNext-1]
+	}
 	switch rnd.Intn(12) {
 	case 0:
 		return strings.Repeat(vfNasty[rnd.Intn(len(vfNasty))], 1+rnd.Intn(40))
